@@ -32,14 +32,12 @@ checks_off: --conversion-check
 */
 /*@unit
 name: str_prepend_char.tight
-define: VP=str, VSTR_OWN_MEMMOVE, VSTR_OWN_REALLOC, U_PREPEND_CHAR, U_NONEMPTY, U_TIGHT, VCAP=255
+define: VP=str, VSTR_OWN_MEMMOVE, U_PREPEND_CHAR, U_NONEMPTY, U_TIGHT
 src: str.c, obj.c
 enforce: spif_str_prepend_char
 backend: sat,z3
 timeout: 200
 flags: --slice-formula
-tier: B
-bound: buffer sizes <= 255 while finding C01-prepend-char-overrun is open (cbmc's JSON counterexample expands symbolic-size arrays)
 */
 /*@unit
 name: str_prepend_from_ptr.empty
@@ -107,14 +105,12 @@ checks_off: --conversion-check
 */
 /*@unit
 name: ustr_prepend_char.tight
-define: VP=ustr, VSTR_OWN_MEMMOVE, VSTR_OWN_REALLOC, U_PREPEND_CHAR, U_NONEMPTY, U_TIGHT, VCAP=255
+define: VP=ustr, VSTR_OWN_MEMMOVE, U_PREPEND_CHAR, U_NONEMPTY, U_TIGHT
 src: ustr.c, obj.c
 enforce: spif_ustr_prepend_char
 backend: sat,z3
 timeout: 200
 flags: --slice-formula
-tier: B
-bound: buffer sizes <= 255 while finding C01-prepend-char-overrun is open (cbmc's JSON counterexample expands symbolic-size arrays)
 */
 /*@unit
 name: ustr_prepend_from_ptr.empty
